@@ -118,6 +118,9 @@ func C05() api.Check {
 			if idx%4 == 3 {
 				return item{c: gen.StoreThenWalk(seed), sub: "store-then-walk"}
 			}
+			if idx%8 == 1 {
+				return item{c: gen.RMW(seed), sub: "rmw"}
+			}
 			return item{c: gen.Memory(seed), sub: "memory"}
 		},
 		judge: judgeRef,
@@ -132,6 +135,9 @@ func C10() api.Check {
 		id: "C10", quick: 8000, thorough: 400000,
 		variants: pipelined,
 		gen: func(seed uint64, idx int, tier string) item {
+			if idx%5 == 4 {
+				return item{c: gen.RMW(seed), sub: "rmw"}
+			}
 			return item{c: gen.MemPairs(seed), sub: "mem-pairs"}
 		},
 		judge: judgeRef,
